@@ -123,9 +123,9 @@ def build():
     reg.methods[("Tok", "__eq_other__")] = tok_eq_other
 
     exc_for_token = Contract("exc_for_token", params={"token": TOKEN, "message": "Str"}, trusted=True, raises_type="FormulaSyntaxError",
-                             notes="formulaic.parser.utils.exc_for_token constructs a FormulaSyntaxError")
+                             notes="formulaic.parser.utils.exc_for_token constructs a FormulaSyntaxError (that it never raises itself is proved in vf/proofs/c14_errors.py)")
     exc_missing = Contract("exc_for_missing_operator", params={"lhs": NODE, "rhs": NODE, "extra": "Opt[Str]"}, trusted=True, raises_type="FormulaSyntaxError",
-                           notes="formulaic.parser.utils.exc_for_missing_operator constructs a FormulaSyntaxError")
+                           notes="formulaic.parser.utils.exc_for_missing_operator constructs a FormulaSyntaxError (that it never raises itself, for every pair of trees, is proved in vf/proofs/c14_errors.py)")
     exc_missing.defaults = {"extra": None}
     resolve = Contract("OperatorResolver.resolve", params={"self": TObj("OperatorResolver"), "token": TOKEN}, returns=TSeq(PAIR), trusted=True,
                        raises={"FormulaSyntaxError": None},
